@@ -53,6 +53,10 @@ def family():
         if q and "/mm/" not in label and "/fb/" not in label and "/bf/" not in label:
             continue
         yield label, prog, dict(kind="single", horizon=8)
+    for label, prog, meta in F.fam_restart():
+        yield label, prog, dict(kind="env", depth=10)
+    for label, prog, meta in F.fam_clone_markers():
+        yield label, prog, dict(kind="clonemarkers")
     for label, prog, meta in F.fam_selfbids():
         yield label, prog, dict(kind="single", horizon=10)
     for label, prog, meta in F.fam_markers():
@@ -96,7 +100,7 @@ def on_prog(p, idx, label, prog, meta):
         runner.explore_and_check(p, idx, label, prog, cmp=cmp, alphabet=F.X_ALPHABET, back_alphabet=F.X_ALPHABET, watch=("x",),
                                  depth=8 if core.TIER == "quick" else 14, sample_every=1999)
         return
-    if kind == "clones":
+    if kind in ("clones", "clonemarkers"):
         from checks import c12
         expect = c12.rel_paths(prog)
         watch = tuple(sorted(set().union(*expect.values())))
@@ -107,6 +111,10 @@ def on_prog(p, idx, label, prog, meta):
                     for n in (it[2] if it[0] in ("go", "auxif") else it[1] if it[0] == "let" else []):
                         if n[0] in ("cmp", "bool"):
                             read.add(n[1])
+        if kind == "clonemarkers":
+            runner.explore_and_check(p, idx, label, prog, cmp=runner.cmp_full(fields=(0, 1, 3, 4, 5, 8)), watch=watch + ("x",),
+                                     canon_paths=read | {"x"}, alphabet=F.X_ALPHABET, depth=8 if core.TIER == "quick" else 12, sample_every=1999)
+            return
         runner.explore_and_check(p, idx, label, prog, cmp=runner.cmp_full(fields=(0, 1, 3, 4, 5, 6, 7, 8)), watch=watch, canon_paths=read,
                                  depth=8 if core.TIER == "quick" else 12, sample_every=1999)
         return
